@@ -12,7 +12,9 @@ class C08(Prop):
             "conditional through the real processor.RunnableProcessor -> 1 destination, DLQ) over a batch of 1..12 "
             "records with scripted plugin replies (result kinds same/modified/changed position/filter/error/"
             "multi(0..3)/nil, short results), per-piece destination outcomes and ack chunking, drawn from one "
-            "splitmix64 state; distinct = distinct input JSON; non-trivial = the plugins returned at least two "
+            "splitmix64 state; plus the 'dest' enumeration (m <= 4 quick / 5 thorough records at the destination "
+            "or the DLQ destination, every ack chunking x every chunk index x every malformed reply) for the "
+            "accounting under a misbehaving destination; distinct = distinct input JSON; non-trivial = the plugins returned at least two "
             "different result kinds (or a short result, a destination nack, a DLQ write) or the pass ended in an error")
     trusted_base = fc.TRUSTED
     assumptions = [
@@ -29,8 +31,10 @@ class C08(Prop):
 
     def gen_shards(self, tier, seed):
         if tier == "quick":
-            return [["--seed", str(seed), "--n", "110"] for _ in range(NCPU)]
-        return [["--seed", str(seed), "--n", "2500"] for _ in range(NCPU)]
+            return ([["--seed", str(seed), "--n", "110"] for _ in range(NCPU)]
+                    + [["--mode", "dest:%d:2" % i] for i in range(2)])
+        return ([["--seed", str(seed), "--n", "2500"] for _ in range(NCPU)]
+                + [["--mode", "dest:%d:4" % i] for i in range(4)])
 
     def search_shards(self, tier, seed, round_no):
         return [["--seed", str(seed + 7919 * (round_no + 1) + k), "--n", "150"] for k in range(NCPU)]
